@@ -19,7 +19,8 @@ func init() {
 		decided: "the complete precedence x associativity relation realised by the Pratt parser (table rows, loop test and right binding power of every parselet extracted from the source) equals the relation prescribed by the statement, for every ordered pair of infix operators and every prefix operator x infix operator; " +
 			"assignment tokens are routed to a parselet that validates its target and parses its right side right-to-left; the compound-assignment desugaring table; grouping returns the inner node after a required ')'." +
 			" The operator loop can be left successfully only through its precedence test; every infix parselet builds its node around the left operand it was handed; the assignment-target validation precedes the consumption of the operator and every successful return." +
-			" An identifier is a run of letters, digits and '_' only; a root selector's text reaches the expression parser unchanged.",
+			" An identifier is a run of letters, digits and '_' only; a root selector's text reaches the expression parser unchanged." +
+			" A prefix operator parselet consumes one operator and parses one operand per activation; no branch of the parser depends on Parser state other than the token cursor, the operator table and the three statement-context flags.",
 		notDecided: "evaluation of the grouped tree (C05); ++/-- (outside the statement).",
 	})
 }
